@@ -700,6 +700,23 @@ func c02Reject(c *Ctx) {
 				})
 			})
 		}},
+		{"dnssl-empty-label", "parseDNSSL", "domain names have no empty label", func(r rejection) bool {
+			// both forms are rejected: a leading dot and two consecutive dots (checked on the normalised name)
+			return lastIs(r, func(a an.PathAtom) bool {
+				e := a.Cond
+				if !a.Pos || e.Op != an.OpCall || e.Fn == nil || len(e.Args) != 2 {
+					return false
+				}
+				onName := e.Args[0].Contains(func(z *an.Expr) bool { return z.Op == an.OpElem && len(z.Args) == 2 && z.Args[0].IsField("DomainNames") })
+				switch e.Fn.String() {
+				case "strings.HasPrefix":
+					return onName && e.Args[1].IsConst(`"."`)
+				case "strings.Contains":
+					return onName && e.Args[1].IsConst(`".."`)
+				}
+				return false
+			}) && emptyLabelBoth(rej["parseDNSSL"])
+		}},
 		{"dnssl-duplicate", "parseDNSSL", "domain names unique", func(r rejection) bool {
 			return lastIs(r, func(a an.PathAtom) bool { return a.Pos && filterKind(a) == "Seen" })
 		}},
@@ -1480,4 +1497,31 @@ func sameFieldLoad(a, b ssa.Value) bool {
 		}
 	}
 	return true
+}
+
+// emptyLabelBoth reports whether the rejections of parseDNSSL include one
+// decided by strings.HasPrefix(name, ".") and one by strings.Contains(name, "..").
+func emptyLabelBoth(rs []rejection) bool {
+	pre, mid := false, false
+	for _, r := range rs {
+		if len(r.atoms) == 0 {
+			continue
+		}
+		a := r.atoms[len(r.atoms)-1]
+		e := a.Cond
+		if !a.Pos || e.Op != an.OpCall || e.Fn == nil || len(e.Args) != 2 {
+			continue
+		}
+		switch e.Fn.String() {
+		case "strings.HasPrefix":
+			if e.Args[1].IsConst(`"."`) {
+				pre = true
+			}
+		case "strings.Contains":
+			if e.Args[1].IsConst(`".."`) {
+				mid = true
+			}
+		}
+	}
+	return pre && mid
 }
